@@ -40,7 +40,7 @@ class C01(Check):
                'rxsci/operators/filter.py', 'rxsci/operators/first.py', 'rxsci/operators/last.py', 'rxsci/operators/take.py', 'rxsci/operators/tee_map.py',
                'rxsci/operators/flat_map.py', 'rxsci/operators/do_action.py', 'rxsci/operators/assert_.py', 'rxsci/operators/progress.py',
                'rxsci/operators/distinct_until_changed.py', 'rxsci/data/batch.py', 'rxsci/data/clip.py', 'rxsci/data/fill_none.py', 'rxsci/data/to_list.py', 'rxsci/data/to_array.py']
-    REQUIRED_TAGS = DUAL + ['zip', 'merge', 'combine_latest', 'group', 'multiplex', 'roll', 'split', 'len>=3', 'truthy-predicates', 'many-groups', 'scale', 'assert-fails', 'seed-factory-whose-product-holds-an-identity'] + PRELUDE_TAGS
+    REQUIRED_TAGS = DUAL + ['zip', 'merge', 'combine_latest', 'group', 'multiplex', 'roll', 'split', 'len>=3', 'truthy-predicates', 'many-groups', 'scale', 'assert-fails', 'seed-factory-whose-product-holds-an-identity', 'ints-beyond-2**31-within-64-bits'] + PRELUDE_TAGS
     REQUIRED_OBSERVED = ['groups_compared', 'items_compared']
 
     def generate(self, rng, tier, shard, nshards):
@@ -65,6 +65,29 @@ class C01(Check):
                     seqs.append(xs)
                 yield {'prog': pre + [a] + post, 'mode': 'assert-fail', 'seqs': seqs, 'shape': rng.choice(gen.INTERLEAVINGS),
                        'iseed': rng.randrange(1 << 30), 'truthy': False}
+                continue
+            if k % 50 == 33:
+                # integers beyond 2**31 that still fit 64 bits (epoch milliseconds, byte totals beyond 2 GiB): what a plain Python
+                # int holds, an int-typed per-key state must hold too
+                base = rng.choice([2 ** 31, 2 ** 32 + 5, 1_700_000_000_000, 2 ** 45])
+                red = rng.random() < 0.5
+                prog = rng.choice([
+                    [['scan', 'acc_max', 'zero', False, None]],
+                    [['scan', 'acc_add', 'zero', red, None]],
+                    [['sum', red]], [['max', red]], [['min', red]],
+                    [['map', 'add:3'], ['scan', 'acc_add', 'zero', False, None], ['take', 3]],
+                    [['tee_map', 'zip', [[['scan', 'acc_max', 'zero', False, None]], [['count', False]]]]],
+                    [['distinct_until_changed', None], ['last']] if False else [['scan', 'acc_max', 'neg1', red, None]],
+                ])
+                mode = modes[(k // 50) % len(modes)]
+                ng = rng.choice([1, 2, 3]) if mode == 'group' else 1
+                case = {'prog': prog, 'mode': mode, 'seqs': [[base + rng.randint(0, 10 ** 6) for _ in range(rng.choice([1, 2, 5, 12]))] for _ in range(ng)],
+                        'shape': rng.choice(gen.INTERLEAVINGS), 'iseed': rng.randrange(1 << 30), 'truthy': False, 'bigints': True}
+                if mode == 'roll':
+                    case['ctx'] = ['roll', rng.randint(1, 5), rng.randint(1, 5), None]
+                elif mode == 'split':
+                    case['ctx'] = ['split', 'div:%d' % rng.randint(2, 5), None]
+                yield case
                 continue
             truthy = (k % 10 == 9) if (k // 10) % 2 else (k % 10 == 4)      # (k % 10 == 9 alone is always odd: never the 'roll' turn of k % 6)
             scale = (k % 150 == 7)
@@ -136,6 +159,8 @@ class C01(Check):
                 out.tags.append('seed-factory-whose-product-holds-an-identity')
         if len(prog) >= 3:
             out.tags.append('len>=3')
+        if case.get('bigints'):
+            out.tags.append('ints-beyond-2**31-within-64-bits')
         if case.get('truthy'):
             out.tags.append('truthy-predicates')
         if len(seqs) >= 20:
